@@ -409,3 +409,126 @@ pub fn save_mem(book: &Spreadsheet, light: bool) -> Result<Vec<u8>, String> {
 pub fn load_mem(bytes: &[u8], eager: bool) -> Result<Spreadsheet, String> {
     umya::reader::xlsx::read_reader(std::io::Cursor::new(bytes), eager).map_err(|e| format!("{:?}", e))
 }
+
+/// The numeric id under which a number format is stored (and whether a code equal to a built-in one
+/// is stored as built-in or as custom) is representation, not formatting: blank both.
+fn norm_repr(s: &str) -> String {
+    let mut out = String::with_capacity(s.len());
+    let mut rest = s;
+    loop {
+        let a = rest.find("number_format_id: ");
+        let b = rest.find("is_build_in: ");
+        let (pos, key) = match (a, b) {
+            (None, None) => break,
+            (Some(x), None) => (x, "number_format_id: "),
+            (None, Some(y)) => (y, "is_build_in: "),
+            (Some(x), Some(y)) => {
+                if x < y {
+                    (x, "number_format_id: ")
+                } else {
+                    (y, "is_build_in: ")
+                }
+            }
+        };
+        out.push_str(&rest[..pos + key.len()]);
+        out.push('_');
+        let tail = &rest[pos + key.len()..];
+        let skip = tail.find(|c: char| !(c.is_ascii_alphanumeric())).unwrap_or(tail.len());
+        rest = &tail[skip..];
+    }
+    out.push_str(rest);
+    out
+}
+
+fn h(s: String) -> String {
+    let s = norm_repr(&s);
+    if std::env::var("USIM_DEBUG_DEEP").is_ok() {
+        return s;
+    }
+    format!("{:016x}", crate::rng::fnv(&s))
+}
+
+/// Deep projection of one worksheet: everything `dump_sheet` has, plus a fingerprint (hash of the
+/// Debug rendering) of every per-sheet structure that contains no randomised container. Used only for
+/// differential comparisons between two objects produced by the same library build (lazy vs eager,
+/// reload of file A vs reload of file B); never against a hand-written expectation.
+pub fn dump_sheet_deep(ws: &umya::Worksheet) -> Value {
+    let mut v = dump_sheet(ws, true);
+    let mut cell_styles: BTreeMap<String, String> = BTreeMap::new();
+    for c in ws.get_cell_collection() {
+        let s = format!("{:?}", c.get_style());
+        let dflt = format!("{:?}", umya::Style::default());
+        if s != dflt {
+            cell_styles.insert(c.get_coordinate().to_string(), h(s));
+        }
+    }
+    let mut rows: Vec<(u32, String)> = ws.get_row_dimensions().iter().map(|r| (*r.get_row_num(), h(format!("{:?}", r)))).collect();
+    rows.sort();
+    let mut cols: Vec<(u32, String)> = ws.get_column_dimensions().iter().map(|c| (*c.get_col_num(), h(format!("{:?}", c)))).collect();
+    cols.sort();
+    let deep = json!({
+        "cell_styles": cell_styles,
+        "rows": rows,
+        "cols": cols,
+        "cf": h(format!("{:?}", ws.get_conditional_formatting_collection())),
+        "n_cf": ws.get_conditional_formatting_collection().len(),
+        "dv": h(format!("{:?}", ws.get_data_validations())),
+        "dv2010": h(format!("{:?}", ws.get_data_validations_2010())),
+        "tables": ws.get_tables().iter().map(|t| format!("{}|{}|{:?}", t.get_name(), t.get_display_name(), t.get_area())).collect::<Vec<_>>(),
+        "auto_filter": format!("{:?}", ws.get_auto_filter()),
+        "tab_color": format!("{:?}", ws.get_tab_color()),
+        "page_setup": h(format!("{:?}", ws.get_page_setup())),
+        "page_margins": h(format!("{:?}", ws.get_page_margins())),
+        "print_options": h(format!("{:?}", ws.get_print_options())),
+        "header_footer": h(format!("{:?}", ws.get_header_footer())),
+        "sheet_views": h(format!("{:?}", ws.get_sheets_views())),
+        "protection": h(format!("{:?}", ws.get_sheet_protection())),
+        "n_images": ws.get_image_collection().len(),
+        "n_charts": ws.get_chart_collection().len(),
+        "images": ws.get_image_collection().iter().map(|i| h(format!("{:?}", i))).collect::<Vec<_>>(),
+        "charts": ws.get_chart_collection().iter().map(|i| h(format!("{:?}", i))).collect::<Vec<_>>(),
+        "active_cell": ws.get_active_cell(),
+        "code_name": ws.get_code_name(),
+        "sheet_format": h(format!("{:?}", ws.get_sheet_format_properties())),
+        "row_breaks": h(format!("{:?}", ws.get_row_breaks())),
+        "col_breaks": h(format!("{:?}", ws.get_column_breaks())),
+        "ole": h(format!("{:?}", ws.get_ole_objects())),
+    });
+    v["deep"] = deep;
+    v
+}
+
+/// names of the keys in which two JSON objects differ (for diagnostics)
+pub fn diff_keys(a: &Value, b: &Value, prefix: &str, out: &mut Vec<String>) {
+    match (a, b) {
+        (Value::Object(x), Value::Object(y)) => {
+            let keys: std::collections::BTreeSet<&String> = x.keys().chain(y.keys()).collect();
+            for k in keys {
+                match (x.get(k), y.get(k)) {
+                    (Some(p), Some(q)) => {
+                        if p != q {
+                            diff_keys(p, q, &format!("{}/{}", prefix, k), out)
+                        }
+                    }
+                    (Some(p), None) => out.push(format!("{}/{} only left: {}", prefix, k, short(p))),
+                    (None, Some(q)) => out.push(format!("{}/{} only right: {}", prefix, k, short(q))),
+                    _ => {}
+                }
+            }
+        }
+        _ => {
+            if a != b {
+                out.push(format!("{}: {} != {}", prefix, short(a), short(b)));
+            }
+        }
+    }
+}
+
+fn short(v: &Value) -> String {
+    let s = v.to_string();
+    if s.chars().count() > 160 && std::env::var("USIM_DEBUG_DEEP").is_err() {
+        format!("{}…", s.chars().take(160).collect::<String>())
+    } else {
+        s
+    }
+}
